@@ -24,9 +24,9 @@ EXPLANATION = (
     'disjoint; log type table name/format/size columns agree and equal the firmware codes; R7 both element constructors skip one '
     'metadata byte and take group then name from the NUL separated remainder; R8 Toc stores under [group][name] and the three '
     'look-ups read the same path; R9 completion is signalled only from the cache-hit, last-index and empty-table branches, and '
-    'the extended-type pass hands the completion on. R11 the persistence marker: an extended-type answer is accepted only as MISC_GET_EXTENDED_TYPE reply for the id just asked, once, and marks the element with that id (shared with C04.R10). Reply orders as such are not enumerated: R1 and R11 are the structural guards.')
+    'the extended-type pass hands the completion on. R11 the persistence marker: an extended-type answer is accepted only as MISC_GET_EXTENDED_TYPE reply for the id just asked, once, and marks the element with that id (shared with C04.R10). R12 cache present: encoder and decoder of the cache agree key by key and both handle `extended` for parameter elements (shared with C11.R4). Reply orders as such are not enumerated: R1 and R11 are the structural guards.')
 ASSUMPTIONS = ['firmware log.h type codes 1..8 and parameter type-byte bit semantics are as tabulated in this check']
-FLOORS = {'R11': 14, 'R10': 3, 'R1': 4, 'R2': 8, 'R3': 20, 'R4': 2, 'R5': 4, 'R6': 20, 'R7': 6, 'R8': 5, 'R9': 4}
+FLOORS = {'R12': 8, 'R11': 14, 'R10': 3, 'R1': 4, 'R2': 8, 'R3': 20, 'R4': 2, 'R5': 4, 'R6': 20, 'R7': 6, 'R8': 5, 'R9': 4}
 
 FW_LOG_TYPES = {1: ('uint8_t', 1), 2: ('uint16_t', 2), 3: ('uint32_t', 4), 4: ('int8_t', 1), 5: ('int16_t', 2), 6: ('int32_t', 4),
                 7: ('float', 4), 8: ('FP16', 2)}
@@ -451,6 +451,8 @@ def check(ctx):
     from .c11 import cache_name_rules
     cache_name_rules(ctx, 'R10')       # cache present: only a table stored under exactly the announced CRC may be adopted
     ext_fetcher_rules(ctx, 'R11')      # persistence marker: the extended-type pass (shared with C04.R10)
+    from .c11 import cache_codec_rules
+    cache_codec_rules(ctx, 'R12')      # cache present: cached elements carry every attribute, `extended` included (shared with C11.R4)
 
     # ---- R9: completion ------------------------------------------------------------------------------------------
     fins = g.find(lambda n: method_call(n, '_toc_fetch_finished'))
